@@ -490,3 +490,152 @@ class Oracle:
                 r["tag"] = tuple(t)
         finally:
             s.constraints = saved
+
+
+# ---------------------------------------------------------------------------------------
+# starting point (C10)
+# ---------------------------------------------------------------------------------------
+def guessed_times(spec, H, guesses):
+    """node times implied by the guessed t0 and T"""
+    def horizon(key, kind):
+        g = guesses.get(key)
+        if g is not None:
+            return ca.MX(ca.DM(g))
+        if kind[0] == "free":
+            return ca.MX(ca.DM(kind[1]))
+        return ca.MX(H.T if key == "T" else H.t0)      # number / parameter value
+    T = horizon("T", spec.T)
+    t0 = horizon("t0", spec.t0)
+    N = spec.N
+    if spec.grid.get("kind", "uniform") == "uniform":
+        n = [_ratio(k, N) for k in range(N + 1)]
+    else:
+        n = H.m.time_grid.normalized(N)
+    return [t0 + T * n[k] if k else t0 for k in range(N + 1)], T, t0
+
+
+def expected_initial(spec, meth, values):
+    """list of (label, handle expression, expected physical starting value).
+    `values`: target -> realised guess (as passed to ocp.set_initial), last call wins."""
+    H = Handles(spec, meth)
+    N, M = spec.N, spec.M
+    last = {}
+    for tgt, val in values:
+        last[tgt] = val
+    guesses = {k: v for k, v in last.items() if k in ("T", "t0")}
+    ts, Tg, t0g = guessed_times(spec, H, guesses)
+    out = []
+
+    def value_at(val, point, t, ncols_node=True):
+        """guess semantics: constant / column / time expression"""
+        if isinstance(val, E):
+            return val.on(lambda a: {"t": t}[a])
+        v = ca.DM(val) if not isinstance(val, (ca.DM, ca.MX)) else val
+        return v
+
+    def column(v, n, j_interval, j_node, per_interval):
+        v = ca.MX(v)
+        if v.numel() == n or v.numel() == 1:
+            return v if v.numel() == n else ca.repmat(v, n, 1)
+        if v.shape[0] != n and v.shape[1] == n:
+            v = v.T
+        cols = v.shape[1]
+        j = j_interval if per_interval else j_node
+        if cols == N + 1:
+            return v[:, j]
+        if cols == N:
+            return v[:, min(j, N - 1)]
+        raise ValueError("guess with %d columns" % cols)
+
+    def block(expr, off, n):
+        return ca.MX(expr)[off:off + n]
+
+    # states
+    off = 0
+    nodes = range(N + 1) if spec.method != "SS" else range(1)
+    for i, n in enumerate(spec.states):
+        val = last.get(("x", i))
+        for j in nodes:
+            h = block(H.X[j], off, n)
+            if val is None:
+                exp = ca.DM.zeros(n)
+            elif isinstance(val, E):
+                exp = val.on(lambda a, j=j: {"t": ts[j]}[a])
+            else:
+                exp = column(val, n, min(j, N - 1), j, False)
+            out.append((("x", i, "node", j), h, exp))
+        off += n
+    # controls (per interval, time expressions at the interval's start time)
+    off = 0
+    for i, n in enumerate(spec.controls):
+        val = last.get(("u", i))
+        for k in range(N):
+            h = block(H.U[k], off, n)
+            if val is None:
+                exp = ca.DM.zeros(n)
+            elif isinstance(val, E):
+                exp = val.on(lambda a, k=k: {"t": ts[k]}[a])
+            else:
+                exp = column(val, n, k, k, True)
+            out.append((("u", i, "interval", k), h, exp))
+        off += n
+    # variables
+    offg = 0
+    for i, n in enumerate(spec.variables.get("", [])):
+        val = last.get((("v", ""), i))
+        h = block(H.V, offg, n)
+        exp = ca.DM.zeros(n) if val is None else column(val, n, 0, 0, True)
+        out.append((("v", i), h, exp))
+        offg += n
+    for i, n in enumerate(spec.variables.get("control", [])):
+        val = last.get((("v", "control"), i))
+        for k in range(N):
+            h = ca.MX(H.V_control[i][k])
+            if val is None:
+                exp = ca.DM.zeros(n)
+            elif isinstance(val, E):
+                exp = val.on(lambda a, k=k: {"t": ts[k]}[a])
+            else:
+                exp = column(val, n, k, k, True)
+            out.append((("vc", i, "interval", k), h, exp))
+    for i, n in enumerate(spec.variables.get("control+", [])):
+        val = last.get((("v", "control+"), i))
+        for j in range(N + 1):
+            h = ca.MX(H.V_control_plus[i][j])
+            if val is None:
+                exp = ca.DM.zeros(n)
+            elif isinstance(val, E):
+                exp = val.on(lambda a, j=j: {"t": ts[j]}[a])
+            else:
+                exp = column(val, n, min(j, N - 1), j, False)
+            out.append((("vcp", i, "node", j), h, exp))
+    # horizon
+    if spec.T[0] == "free":
+        out.append((("T",), H.T, Tg))
+    if spec.t0[0] == "free":
+        out.append((("t0",), H.t0, t0g))
+    # helper states of direct collocation
+    if spec.method == "DC":
+        m = meth
+        tau = [float(t) for t in m.tau]
+        off = 0
+        for i, n in enumerate(spec.states):
+            val = last.get(("x", i))
+            for k in range(N):
+                dt = (ts[k + 1] - ts[k]) / M
+                for l in range(M):
+                    Xc = ca.MX(m.Xc[k][l])
+                    for j in range(spec.degree + 1):
+                        if j == 0 and l == 0:
+                            continue
+                        h = Xc[off:off + n, j]
+                        tt = ts[k] + l * dt + (dt * tau[j - 1] if j else 0)
+                        if val is None:
+                            exp = ca.DM.zeros(n)
+                        elif isinstance(val, E):
+                            exp = val.on(lambda a, tt=tt: {"t": tt}[a])
+                        else:
+                            exp = column(val, n, k, k, True)
+                        out.append((("x", i, "helper", k, l, j), h, exp))
+            off += n
+    return out
